@@ -102,12 +102,15 @@ const KB_NAMES: &[&str] = &["AT Translated Set 2 keyboard", "Logitech USB Keyboa
 const MOUSE_NAMES: &[&str] = &["Logitech Gaming Mouse G502", "Razer DeathAdder Mouse", "PS/2 Generic Mouse", "USB Optical Mouse", "SteelSeries Rival Mouse 3"];
 
 fn gen_entry(src: &mut Src, idx: usize) -> Entry {
-  let input_no = 100 + idx as u32;
-  let event_no = 20 + idx as u32;
+  // numbers with different leading digits (a prefix test that is too long must not hide)
+  const INPUT_NOS: [u32; 14] = [2, 37, 4, 58, 6, 71, 8, 93, 10, 115, 21, 206, 49, 300];
+  let input_no = INPUT_NOS[idx % INPUT_NOS.len()] + 1000 * (idx / INPUT_NOS.len()) as u32;
+  let event_no = [3u32, 14, 5, 26, 7, 38, 9, 41, 10, 52, 11, 63, 12, 74][idx % 14] + 100 * (idx / 14) as u32;
   let phys_sysfs = match src.below(4) {
-    0 => format!("/devices/platform/i8042/serio{}/input/input{}", idx, input_no),
-    1 => format!("/devices/pci0000:00/0000:00:14.0/usb1/1-{}/1-{}:1.0/0003:046D:C31C.{:04}/input/input{}", idx + 1, idx + 1, idx + 1, input_no),
-    2 => format!("/devices/LNXSYSTM:00/LNXSYBUS:00/PNP0C0C:{:02}/input/input{}", idx, input_no),
+    // (paths that cannot coincide with those of the captured real entries)
+    0 => format!("/devices/platform/i8042/serio{}/input/input{}", idx + 10, input_no),
+    1 => format!("/devices/pci0000:00/0000:00:14.0/usb1/1-{}/1-{}:1.0/0003:046D:C31C.{:04}/input/input{}", idx + 1, idx + 1, idx + 9001, input_no),
+    2 => format!("/devices/LNXSYSTM:00/LNXSYBUS:00/PNP0C0E:{:02}/input/input{}", idx, input_no),
     _ => format!("/devices/virtualish/input/input{}", input_no), // not the virtual tree: only the exact prefix counts
   };
   let virt_sysfs = format!("/devices/virtual/input/input{}", input_no);
@@ -781,7 +784,7 @@ pub fn check(cfg: &RunCfg, _findings: &Findings) -> Report {
     cfg,
     "C16-text",
     16,
-    if quick { 3_000 } else { 80_000 },
+    if quick { 10_000 } else { 150_000 },
     64,
     300,
     |src: &mut Src| gen_text_case(src, real_ref),
@@ -840,7 +843,7 @@ pub fn check(cfg: &RunCfg, _findings: &Findings) -> Report {
   let bin = binary_path();
   rep.extra.insert("real_binary".into(), json!(bin.clone().unwrap_or("not built".into())));
   let shards = 16usize;
-  let per_shard: u32 = if quick { 150 } else { 4_000 };
+  let per_shard: u32 = if quick { 400 } else { 6_000 };
   let outs: Vec<Result<Value, String>> = par_map(cfg.threads, shards, |shard| {
     let mut cmd = std::process::Command::new(&exe);
     cmd.args(["c16-worker", &shard.to_string(), &per_shard.to_string(), &cfg.seed.to_string(), if quick { "quick" } else { "thorough" }]);
